@@ -42,6 +42,17 @@ CHECKS = {
             'Provider-side ProviderMdib with role providers, no subscriber; commit failures other than those reachable through the API '
             '(e.g. a table operation raising spontaneously) are not injected; tr.actual_descriptor() is a documented read accessor to '
             'the live object and is not treated as a copy.', '3/C03'),
+    'C04': ('H+S', 'explicit-state exploration of transaction histories with a recording subscriber (wire messages re-parsed with lxml and validated by a harness-built XMLSchema); schedule exploration of concurrent writers for ordering',
+            'Every event of the 50-event alphabet, all pairs over the 18-event core alphabet, pairs over two-MDS events on a two-MDS MDIB, '
+            'the async subscription manager and the periodic-report store are executed with a recording subscriber. Every message on '
+            'the wire is validated with an XMLSchema the harness builds from src/sdc11073/xsd (independent of the library validate '
+            'flag) and re-parsed with plain lxml: MdibVersion/SequenceId/InstanceId equal the committed group; the multiset of '
+            'reported (handle, version) equals the snapshot diff of that commit (no unchanged state, no missing one, none twice, '
+            'right report category and modification type); canonical content equals the table content at the commit; every '
+            'SourceMds equals the MDS ancestor found by walking parents; stored periodic copies equal the snapshot of the version '
+            'they are labelled with and one real periodic-loop pass is checked on the wire.',
+            'Single subscriber; content comparison goes through the library reader (versions, handles, grouping through lxml only); '
+            'ordering under concurrent writers is covered by the schedule-exploration part when present in the evidence.', '3/C04'),
     'C11': ('H', 'explicit-state BFS with canonical-state dedup over table operation histories on the real MultiKeyLookup tables, plus MDIB history exploration; invariant = indices equal an independent regrouping of table.objects',
             'Breadth-first search over add (3 variants) / remove (3 variants) / attribute write + update_object / clear / bulk add / '
             'update_objects / duplicate-key add on the real DescriptorsLookup, StatesLookup, MultiStatesLookup, a generic 3-index '
